@@ -338,9 +338,11 @@ def scenario(rec, rng, cid):
         steps = ["compute_tip_position", "correct_tip_offset"]
         opts = {"correct_tip_offset": {"method": "deviation_from_baseline"}}
         if sc == "prep_options":
+            # (non-default values, so that withdrawing them changes the data)
             steps.append("correct_force_slope")
-            opts["correct_force_slope"] = {"region": "baseline",
-                                           "strategy": "shift"}
+            opts = {"correct_tip_offset": {"method": "fit_constant_polynomial"},
+                    "correct_force_slope": {"region": "approach",
+                                            "strategy": "shift"}}
         s0, o0 = copy.deepcopy(steps), copy.deepcopy(opts)
         if sc == "prep_list_via_fit":
             g.call("fit_model", a.fit_model, preprocessing=steps,
@@ -354,8 +356,11 @@ def scenario(rec, rng, cid):
         compare(a, b, "after-first-call")
         # in place edit
         if sc == "prep_options":
-            which = int(rng.integers(3))
-            if which == 0:
+            which = int(rng.integers(4))
+            if which == 3:
+                # all options withdrawn (an empty dictionary is a value)
+                opts.clear()
+            elif which == 0:
                 opts["correct_tip_offset"]["method"] = "fit_constant_line"
             elif which == 1:
                 opts["correct_force_slope"]["region"] = "all"
